@@ -609,6 +609,162 @@ let () =
     | [sf; bw] -> tok_of_bool (ldro_required (zi sf) (bw_hz (zi bw)))
     | _ -> "BADARGS")
 
+(* ------------------------------------------------------------------ PHY driver models (Model/PhyCore.v, Sx126x.v, Sx127x.v) *)
+let hexs l = if l = [] then "-" else hex_of_bytes l
+let iv_name = function IvReset -> "RESET" | IvBusy -> "BUSY" | IvIrq -> "IRQ" | IvSwRx -> "SWRX" | IvSwTx -> "SWTX" | IvSwOff -> "SWOFF"
+let trace_str (t : tev list) : string =
+  String.concat " " (List.map (function
+    | TSpi segs -> String.concat "," (List.map (function TW b -> "w" ^ hexs b | TR d -> "r" ^ hexs d) segs)
+    | TSpiFault -> "SPI!"
+    | TIv c -> iv_name c
+    | TIvFault c -> iv_name c ^ "!"
+    | TDelay ns -> "DELAY" ^ dec_of_n ns) t)
+let dec_of_zz = function Z0 -> "0" | Zpos p -> dec_of_n (Npos p) | Zneg p -> "-" ^ dec_of_n (Npos p)
+let rerr_str = function
+  | ESpi -> "SPI" | EBusy -> "Busy" | EInvalidConfiguration -> "InvalidConfiguration" | EInvalidRadioMode -> "InvalidRadioMode"
+  | EInvalidSyncWord -> "InvalidSyncWord" | EOpError s -> "OpError(" ^ dec_of_n s ^ ")"
+  | EInvalidBaseAddress (a, b) -> "InvalidBaseAddress(" ^ dec_of_n a ^ ", " ^ dec_of_n b ^ ")"
+  | EPayloadSizeUnexpected n -> "PayloadSizeUnexpected(" ^ dec_of_n n ^ ")"
+  | EPayloadSizeMismatch (a, b) -> "PayloadSizeMismatch(" ^ dec_of_n a ^ ", " ^ dec_of_n b ^ ")"
+  | EUnavailableSF -> "UnavailableSpreadingFactor" | EUnavailableBW -> "UnavailableBandwidth" | EInvalidBwForFreq -> "InvalidBandwidthForFrequency"
+  | EInvalidSF6Explicit -> "InvalidSF6ExplicitHeaderRequest" | EInvalidPowerForFreq -> "InvalidOutputPowerForFrequency"
+  | ETransmitTimeout -> "TransmitTimeout" | EReceiveTimeout -> "ReceiveTimeout" | EDutyCycleUnsupported -> "DutyCycleUnsupported"
+  | ERngUnsupported -> "RngUnsupported" | EPanic -> "PANIC"
+exception Phy_panic of string
+(* run one operation; `show` renders an Ok value *)
+let phy_step (c : chip ref) (p : 'a prog) (show : 'a -> string) : string =
+  let ((c', tr), r) = run (nat_of_int 400) !c p [] in
+  c := c';
+  match r with
+  | Some (Inl v) -> Printf.sprintf "%s :: %s" (show v) (trace_str tr)
+  | Some (Inr EPanic) -> raise (Phy_panic (Printf.sprintf "PANIC :: %s" (trace_str tr)))
+  | Some (Inr e) -> Printf.sprintf "Err(%s) :: %s" (rerr_str e) (trace_str tr)
+  | None -> Printf.sprintf "OUT-OF-FUEL :: %s" (trace_str tr)
+let unit_ok () = "Ok(())"
+let irqmode_of = function "none" -> IqNone | "standby" -> IqStandby | "tx" -> IqTransmit | "rx" | "rxs" -> IqReceive | "cad" -> IqCad | _ -> IqOther
+let irqstate_str = function IrqNoneYet -> "Ok(none)" | IrqPreamble -> "Ok(preamble)" | IrqDone None -> "Ok(done cad=0)" | IrqDone (Some b) -> "Ok(done cad=" ^ (if b then "1" else "0") ^ ")"
+let run_phy_line (line : string) : string =
+  let parts = List.map String.trim (String.split_on_char '|' line) in
+  let head = List.filter (fun s -> s <> "") (String.split_on_char ' ' (List.hd parts)) in
+  let get k d = List.fold_left (fun acc kv -> match String.index_opt kv '=' with
+      | Some i when String.sub kv 0 i = k -> String.sub kv (i + 1) (String.length kv - i - 1) | _ -> acc) d (List.tl head) in
+  let chipname = get "chip" "sx1262" in
+  let is126 = not (String.length chipname >= 5 && String.sub chipname 0 5 = "sx127") in
+  let regs0 = List.init 4096 (fun _ -> N0) in
+  let regs = (match get "regs" "-" with "-" -> regs0 | v ->
+      List.fold_left (fun r p -> match String.split_on_char ':' p with
+          | [a; b] -> set_nthN r (nat_of_int ((int_of_string a) land 0xfff)) (ni b) | _ -> r) regs0 (String.split_on_char ',' v)) in
+  let buf0 = (match get "buf" "-" with "-" -> [] | v -> bytes_of_hex v) in
+  let buf = List.init 256 (fun i -> match List.nth_opt buf0 i with Some b -> b | None -> N0) in
+  let c = ref { c_kind = (if is126 then K126 else K127); c_regs = regs; c_reads = (match get "reads" "-" with "-" -> [] | v -> bytes_of_hex v);
+                c_fill = ni (get "fill" "0"); c_buf = buf; c_fifo = N0; c_events = N0;
+                c_fault = (match get "fault" "-" with "-" -> None | v -> Some (ni v)) } in
+  let tcxo = (match get "tcxo" "-" with "-" -> None | v -> Some (ni v)) in
+  let g = { g_low_power_pa = (chipname = "sx1261" || chipname = "stm32wl_lp");
+            g_pa_table = (match chipname with "sx1261" | "stm32wl_lp" -> sx1261_pa_table | "stm32wl_hp" -> stm32wl_hp_pa_table | _ -> sx1262_pa_table);
+            g_dio2_rfswitch = (chipname = "sx1261" || chipname = "sx1262");
+            g_tcxo = tcxo; g_dcdc = bool_of_tok (get "dcdc" "0"); g_rx_boost = bool_of_tok (get "rxboost" "0") } in
+  let h = { h_variant = (if chipname = "sx1272" then V1272 else V1276); h_tcxo = (tcxo <> None);
+            h_tx_boost = bool_of_tok (get "txboost" "0"); h_rx_boost = bool_of_tok (get "rxboost" "0") } in
+  let quirk = ref false in
+  let out = ref [] in
+  (try
+    List.iter (fun op ->
+      let a = List.filter (fun s -> s <> "") (String.split_on_char ' ' op) in
+      if a <> [] then begin
+      let r =
+        if is126 then
+        (match a with
+        | ["init"; sw] -> phy_step c (init_lora_126 g (ni sw)) unit_ok
+        | ["sync"; sw] -> phy_step c (sync_word_write (ni sw)) unit_ok
+        | ["standby"] -> phy_step c set_standby_126 unit_ok
+        | ["sleep"; w] -> phy_step c (set_sleep_126 (bool_of_tok w)) unit_ok
+        | ["ready"; w] -> phy_step c (ensure_ready_126 (bool_of_tok w)) unit_ok
+        | ["base"; t; r] -> phy_step c (set_buffer_base (ni t) (ni r)) unit_ok
+        | ["power"; p; f; istx] -> phy_step c (set_tx_power_126 g (zi p) (if f = "-" then None else Some (ni f)) (bool_of_tok istx)) unit_ok
+        | ["mod"; sf; bw; cr; f] ->
+          (match create_mod_126 (ni sf) (ni bw) (ni cr) (ni f) with
+           | Some e -> Printf.sprintf "CreateErr(%s) :: " (rerr_str e)
+           | None ->
+             let l = if ldro (z_of_int (int_of_string sf + 5)) (zi bw) then 1 else 0 in
+             Printf.sprintf "ldro=%d %s" l (phy_step c (set_mod_126 (ni sf) (ni bw) (ni cr) (n_of_int l)) unit_ok))
+        | ["pkt"; pre; im; len; crc; iq; sf] ->
+          let pre' = create_pkt_preamble_126 (ni sf) (ni pre) in
+          Printf.sprintf "pre=%s %s" (dec_of_n pre') (phy_step c (set_pkt_126 pre' (bool_of_tok im) (ni len) (bool_of_tok crc) (bool_of_tok iq)) unit_ok)
+        | ["calimg"; f] -> phy_step c (calibrate_image_126 (ni f)) unit_ok
+        | ["chan"; f] -> phy_step c (set_channel_126 (ni f)) unit_ok
+        | ["payload"; h] -> phy_step c (set_payload_126 (bytes_of_hex h)) unit_ok
+        | ["tx"] -> phy_step c do_tx_126 unit_ok
+        | "rx" :: m :: rest ->
+          let mode = (match m, rest with "s", [n] -> RxSingle (ni n) | "c", _ -> RxContinuous | _, [x; y] -> RxDuty (ni x, ni y) | _ -> RxContinuous) in
+          phy_step c (do_rx_126 g mode) unit_ok
+        | ["rxpayload"; im; _len; bl] ->
+          let n = int_of_string bl in
+          let canary = List.init n (fun _ -> n_of_int 0xA5) in
+          let shown = ref canary in
+          let r = (try phy_step c (get_rx_payload_126 (bool_of_tok im) (ni bl))
+                         (fun (len, data) -> shown := data @ (List.filteri (fun i _ -> i >= List.length data) canary); "Ok(" ^ dec_of_n len ^ ")")
+                   with Phy_panic s -> raise (Phy_panic s)) in
+          (* result :: trace  ->  result buf=.. :: trace *)
+          let i = (let rec find k = if k + 4 > String.length r then String.length r else if String.sub r k 4 = " :: " then k else find (k + 1) in find 0) in
+          String.sub r 0 i ^ " buf=" ^ hexs !shown ^ String.sub r i (String.length r - i)
+        | ["status"] -> phy_step c pkt_status_126 (fun (rssi, snr) -> Printf.sprintf "Ok(rssi=%s snr=%s)" (dec_of_zz rssi) (dec_of_zz snr))
+        | ["rssi"] -> phy_step c get_rssi_126 (fun v -> "Ok(" ^ dec_of_zz v ^ ")")
+        | ["cad"; sf] -> phy_step c (do_cad_126 g (ni sf)) unit_ok
+        | ["irq"; m] -> phy_step c (set_irq_126 (irqmode_of m)) unit_ok
+        | ["cw"] -> phy_step c set_cw_126 unit_ok
+        | ["clrirq"] -> phy_step c clear_irq_126 unit_ok
+        | ["irqstate"; m] -> phy_step c (get_irq_state_126 (irqmode_of m)) irqstate_str
+        | ["procirq"; m; clr] -> phy_step c (process_irq_126 (irqmode_of m) (m = "rxs") (bool_of_tok clr)) irqstate_str
+        | _ -> "BADOP")
+        else
+        (match a with
+        | ["init"; sw] -> phy_step c (init_lora_127 h (ni sw)) (fun q -> quirk := q; "Ok(())")
+        | ["sync"; sw] -> phy_step c (set_sync_127 (ni sw)) unit_ok
+        | ["standby"] -> phy_step c set_standby_127 unit_ok
+        | ["sleep"; _] -> phy_step c set_sleep_127 unit_ok
+        | ["ready"; _] -> "Ok(()) :: "
+        | ["base"; t; r] -> phy_step c (set_buffer_base_127 (ni t) (ni r)) unit_ok
+        | ["power"; p; _; istx] -> phy_step c (set_tx_power_127 h (zi p) (bool_of_tok istx)) unit_ok
+        | ["mod"; sf; bw; cr; f] ->
+          (match create_mod_127 h (ni sf) (ni bw) (ni cr) (ni f) with
+           | Some EPanic -> raise (Phy_panic "PANIC :: ")
+           | Some e -> Printf.sprintf "CreateErr(%s) :: " (rerr_str e)
+           | None ->
+             let l = if ldro (z_of_int (int_of_string sf + 5)) (zi bw) then 1 else 0 in
+             Printf.sprintf "ldro=%d %s" l (phy_step c (set_mod_127 h !quirk (ni sf) (ni bw) (ni cr) (n_of_int l) (ni f)) unit_ok))
+        | ["pkt"; pre; im; len; crc; iq; sf] ->
+          (match create_pkt_127 (ni sf) (bool_of_tok im) with
+           | Some e -> Printf.sprintf "CreateErr(%s) :: " (rerr_str e)
+           | None -> Printf.sprintf "pre=%s %s" pre (phy_step c (set_pkt_127 h (ni pre) (bool_of_tok im) (ni len) (bool_of_tok crc) (bool_of_tok iq)) unit_ok))
+        | ["calimg"; _] -> "Ok(()) :: "
+        | ["chan"; f] -> phy_step c (set_channel_127 (ni f)) unit_ok
+        | ["payload"; hx] -> phy_step c (set_payload_127 (bytes_of_hex hx)) unit_ok
+        | ["tx"] -> phy_step c do_tx_127 unit_ok
+        | "rx" :: m :: rest ->
+          let mode = (match m, rest with "s", [n] -> RxSingle (ni n) | "c", _ -> RxContinuous | _, [x; y] -> RxDuty (ni x, ni y) | _ -> RxContinuous) in
+          phy_step c (do_rx_127 h mode) unit_ok
+        | ["rxpayload"; im; len; bl] ->
+          let n = int_of_string bl in
+          let canary = List.init n (fun _ -> n_of_int 0xA5) in
+          let shown = ref canary in
+          let r = phy_step c (get_rx_payload_127 (bool_of_tok im) (ni len) (ni bl))
+                    (fun (len, data) -> shown := data @ (List.filteri (fun i _ -> i >= List.length data) canary); "Ok(" ^ dec_of_n len ^ ")") in
+          let i = (let rec find k = if k + 4 > String.length r then String.length r else if String.sub r k 4 = " :: " then k else find (k + 1) in find 0) in
+          String.sub r 0 i ^ " buf=" ^ hexs !shown ^ String.sub r i (String.length r - i)
+        | ["status"] -> phy_step c (pkt_status_127 h) (fun (rssi, snr) -> Printf.sprintf "Ok(rssi=%s snr=%s)" (dec_of_zz rssi) (dec_of_zz snr))
+        | ["rssi"] -> phy_step c (get_rssi_127 h) (fun v -> "Ok(" ^ dec_of_zz v ^ ")")
+        | ["cad"; _] -> phy_step c (do_cad_127 h) unit_ok
+        | ["irq"; m] -> phy_step c (set_irq_127 (irqmode_of m)) unit_ok
+        | ["cw"] -> phy_step c (set_cw_127 h) unit_ok
+        | ["clrirq"] -> phy_step c clear_irq_127 unit_ok
+        | ["irqstate"; m] -> phy_step c (get_irq_state_127 (irqmode_of m)) irqstate_str
+        | ["procirq"; m; clr] -> phy_step c (process_irq_127 (irqmode_of m) (bool_of_tok clr)) irqstate_str
+        | _ -> "BADOP") in
+      out := r :: !out end) (List.tl parts)
+  with Phy_panic s -> out := s :: !out);
+  String.concat " ; " (List.rev !out)
+
 let () =
   (try
     while true do
@@ -618,6 +774,7 @@ let () =
         match toks with
         | [] -> ""
         | "mac" :: _ -> (try run_mac_history line with e -> "DRIVER-EXN " ^ Printexc.to_string e)
+        | "phy" :: _ -> (try run_phy_line line with e -> "DRIVER-EXN " ^ Printexc.to_string e)
         | op :: args ->
           (match Hashtbl.find_opt handlers op with
            | Some f -> (try f args with e -> "DRIVER-EXN " ^ Printexc.to_string e)
